@@ -1,12 +1,63 @@
 //! C29 — size-limited serializers fail exactly at the limit with out-of-memory.
-//! The real `LimitedWriter` and `node_to_stream` (exactly what `node_to_bytes_limit` composes,
-//! reached through the verif-hooks re-export) write into a fixed buffer instead of a growing Vec.
+//! The real `LimitedWriter`, `write_atom` and `node_to_stream` (exactly what `node_to_bytes_limit`
+//! composes; `node_to_bytes_backrefs_limit` composes the same `LimitedWriter`, `write_atom` and
+//! `f.write_all(&[marker])?` pieces) write into a fixed buffer instead of a growing Vec.
+//! One harness per concrete atom length / tree shape; contents and the limit are symbolic.
 use crate::util::*;
 use clvmr::allocator::{Allocator, NodePtr};
 use clvmr::error::EvalErr;
 use clvmr::serde::verif_hooks::{LimitedWriter, node_to_stream};
+use clvmr::serde::write_atom::write_atom;
 
-fn check_limit(a: &Allocator, t: NodePtr, limit: usize) {
+// ---- kernel: one atom of concrete length L, any content, any limit
+fn atom_limit<const L: usize, const N: usize>() {
+    let b: [u8; L] = kani::any();
+    let limit: usize = kani::any();
+    kani::assume(limit <= L + 4);
+    let mut full: FixedBuf<N> = FixedBuf::new();
+    let r0 = write_atom(&mut full, &b);
+    assert!(r0.is_ok(), "C29/kernel/unlimited-must-succeed");
+    let total = full.len;
+    let prefix = total - L;
+    let mut w = LimitedWriter::new(FixedBuf::<N>::new(), limit);
+    let r = write_atom(&mut w, &b);
+    let out = w.into_inner();
+    if total <= limit {
+        assert!(r.is_ok(), "C29/kernel/within-limit-must-succeed");
+        assert!(out.len == total, "C29/kernel/within-limit-length");
+        let mut i = 0;
+        while i < total {
+            assert!(out.buf[i] == full.buf[i], "C29/kernel/within-limit-bytes");
+            i += 1;
+        }
+        kani::cover!(total == limit, "limit exactly equal to length");
+    } else {
+        let in_prefix = limit < prefix;
+        kani::cover!(in_prefix, "crossing in the length prefix");
+        kani::cover!(L == 0 || !in_prefix, "crossing in the atom body");
+        match r {
+            Ok(()) => assert!(false, "C29/kernel/over-limit-must-fail"),
+            Err(e) => {
+                if in_prefix {
+                    assert!(matches!(e, EvalErr::OutOfMemory), "C29/over-limit-on-length-prefix-is-out-of-memory");
+                } else {
+                    assert!(matches!(e, EvalErr::OutOfMemory), "C29/over-limit-in-atom-body-is-out-of-memory");
+                }
+            }
+        }
+    }
+}
+kernel_proof! { #[kani::unwind(12)] fn c29_atom_len0() { atom_limit::<0, 8>(); } }
+kernel_proof! { #[kani::unwind(12)] fn c29_atom_len1() { atom_limit::<1, 8>(); } }
+kernel_proof! { #[kani::unwind(12)] fn c29_atom_len2() { atom_limit::<2, 8>(); } }
+kernel_proof! { #[kani::unwind(12)] fn c29_atom_len3() { atom_limit::<3, 8>(); } }
+// 64 bytes: two-byte length prefix (crossing between the two prefix bytes is limit == 1)
+kernel_proof! { #[kani::unwind(72)] fn c29_atom_len64() { atom_limit::<64, 72>(); } }
+
+// ---- trees: concrete shape per harness, symbolic leaves (2-byte, 1-byte, nil), any limit
+fn check_limit(a: &Allocator, t: NodePtr, max_limit: usize) {
+    let limit: usize = kani::any();
+    kani::assume(limit <= max_limit);
     let mut full: FixedBuf<20> = FixedBuf::new();
     let r0 = node_to_stream(a, t, &mut full);
     assert!(r0.is_ok(), "C29/classic/unlimited-must-succeed");
@@ -28,19 +79,19 @@ fn check_limit(a: &Allocator, t: NodePtr, limit: usize) {
         }
         kani::cover!(n == limit, "limit exactly equal to length");
     } else {
+        // the first write that does not fit: the unlimited output byte at the number of bytes written so far
+        let crossing = full.buf[out.len];
+        let on_cons = crossing == 0xff && out.len < n;
+        kani::cover!(on_cons, "crossing on a cons marker");
+        kani::cover!(!on_cons, "crossing on an atom");
         match r {
             Ok(_) => assert!(false, "C29/classic/over-limit-must-fail"),
             Err(e) => {
-                // which byte crossed the limit: position `limit` in the unlimited output
-                let crossing = full.buf[limit];
-                let on_cons = crossing == 0xff;
                 if on_cons {
-                    assert!(matches!(e, EvalErr::OutOfMemory), "C29/classic/over-limit-on-cons-marker-is-out-of-memory");
+                    assert!(matches!(e, EvalErr::OutOfMemory), "C29/over-limit-on-cons-marker-is-out-of-memory");
                 } else {
-                    assert!(matches!(e, EvalErr::OutOfMemory), "C29/classic/over-limit-on-atom-is-out-of-memory");
+                    assert!(matches!(e, EvalErr::OutOfMemory), "C29/over-limit-on-atom-is-out-of-memory");
                 }
-                kani::cover!(on_cons, "crossing on a cons marker");
-                kani::cover!(!on_cons, "crossing inside an atom");
             }
         }
         kani::cover!(limit + 1 == n, "limit one below length");
@@ -48,63 +99,58 @@ fn check_limit(a: &Allocator, t: NodePtr, limit: usize) {
     }
 }
 
-// every tree/DAG with 1..=2 pairs over two symbolic 0..=2 byte atoms, any limit
+// leaves with a concrete representation and length (so that the serializer's control flow depends only
+// on the limit): views of a 6-byte symbolic heap atom, the inline integers 5 and 0x1234, and nil
+fn leaves(a: &mut Allocator) -> (NodePtr, NodePtr, NodePtr) {
+    let base: [u8; 6] = kani::any();
+    let b = a.new_atom(&base).unwrap();
+    let x = a.new_substr(b, 0, 2).unwrap();
+    let y = a.new_substr(b, 2, 3).unwrap();
+    (x, y, a.nil())
+}
+
 proof! {
-    #[kani::unwind(22)]
-    fn c29_classic_tree_2pairs() {
+    #[kani::unwind(8)]
+    fn c29_tree_pair() {
         let mut a = Allocator::new();
-        let mut p: Pool<4> = Pool::new();
-        let b1: [u8; 4] = kani::any();
-        let l1: usize = kani::any();
-        kani::assume(l1 <= 2);
-        p.push(new_atom_len(&mut a, &b1, l1));
-        let b2: [u8; 4] = kani::any();
-        let l2: usize = kani::any();
-        kani::assume(l2 <= 2);
-        p.push(new_atom_len(&mut a, &b2, l2));
-        let k: usize = kani::any();
-        kani::assume(k >= 1 && k <= 2);
-        let t = p.grow(&mut a, k);
-        let limit: usize = kani::any();
-        kani::assume(limit <= 12);
-        check_limit(&a, t, limit);
+        let (x, y, _) = leaves(&mut a);
+        let t = a.new_pair(x, y).unwrap();
+        check_limit(&a, t, 6);
         std::mem::forget(a);
     }
 }
-
-// single atom: crossing in the length prefix or in the body
 proof! {
-    #[kani::unwind(22)]
-    fn c29_classic_single_atom() {
+    #[kani::unwind(8)]
+    fn c29_tree_left_nested() {
         let mut a = Allocator::new();
-        let bytes: [u8; 4] = kani::any();
-        let len: usize = kani::any();
-        kani::assume(len <= 4);
-        let n = new_atom_len(&mut a, &bytes, len);
-        let limit: usize = kani::any();
-        kani::assume(limit <= 6);
-        let mut full: FixedBuf<20> = FixedBuf::new();
-        node_to_stream(&a, n, &mut full).unwrap();
-        let total = full.len;
-        let mut w = LimitedWriter::new(FixedBuf::<20>::new(), limit);
-        let r = node_to_stream(&a, n, &mut w);
-        if total <= limit {
-            assert!(r.is_ok(), "C29/classic/within-limit-must-succeed");
-        } else {
-            let has_prefix = total > len;
-            match r {
-                Ok(()) => assert!(false, "C29/classic/over-limit-must-fail"),
-                Err(e) => {
-                    if has_prefix && limit == 0 {
-                        assert!(matches!(e, EvalErr::OutOfMemory), "C29/classic/over-limit-on-length-prefix-is-out-of-memory");
-                        kani::cover!(true, "crossing on the length prefix");
-                    } else {
-                        assert!(matches!(e, EvalErr::OutOfMemory), "C29/classic/over-limit-in-atom-body-is-out-of-memory");
-                        kani::cover!(true, "crossing in the atom body");
-                    }
-                }
-            }
-        }
+        let (x, y, z) = leaves(&mut a);
+        let p = a.new_pair(x, y).unwrap();
+        let t = a.new_pair(p, z).unwrap();
+        check_limit(&a, t, 8);
+        std::mem::forget(a);
+    }
+}
+proof! {
+    #[kani::unwind(8)]
+    fn c29_tree_right_nested_inline() {
+        let mut a = Allocator::new();
+        let (x, _, z) = leaves(&mut a);
+        let s = a.new_small_number(0x1234).unwrap();
+        let p = a.new_pair(s, z).unwrap();
+        let t = a.new_pair(x, p).unwrap();
+        check_limit(&a, t, 10);
+        std::mem::forget(a);
+    }
+}
+proof! {
+    #[kani::unwind(8)]
+    fn c29_tree_shared() {
+        let mut a = Allocator::new();
+        let (_, y, _) = leaves(&mut a);
+        let five = a.new_small_number(5).unwrap();
+        let p = a.new_pair(y, five).unwrap();
+        let t = a.new_pair(p, p).unwrap();
+        check_limit(&a, t, 10);
         std::mem::forget(a);
     }
 }
